@@ -305,7 +305,7 @@ def run(eng, R):
         ok = mags == {(True, "np.log10(np.abs(%s))" % R_X), (False, "-1")} and bool(rets) and tmpl
         R.ob("H-dec", "%s.__call__:magnitude" % SF, ok, (f.file, f.lineno), "the magnitude must be taken from the value rounded to the decimals (9.996 -> 10.0), with a fallback for zero, and the value printed with %#.<digits>g")
         f = get_func(p, "ParameterFormatter", "get_formatted")
-        src = _txt(f.node)
+        src = _txt(common.read_through(f.node))   # (|error_up| / |error_down| held in locals are read as the quantities they are)
         ok = (src.all_like("_vf = ScalarFormatter(_me, n_significant_digits)", "_v = _vf(value)", "_e = '%#.{n}g'.format(n=n_significant_digits) % self.error")
               or src.all_like("_vf = ScalarFormatter(_me, n_significant_digits)", "_v = _vf(value)", "_t = '%#.{n}g'.format(n=n_significant_digits)", "_e = _t % self.error")) \
             and common.like_any(src, "_me = min(abs(self.error_up), abs(self.error_down)) if asymmetric_error else self.error", ["_me = min(abs(self.error_up), abs(self.error_down))", "_me = self.error"])
